@@ -182,6 +182,7 @@ def run(ctx):
     # ---- (X) the Notifier itself: real class vs Gallina model, operation by operation ---------------------------
     import c01_notifier
     c01_notifier.run_notifier(ctx)
+    ctx.log("notifier correspondence done")
     import c01_scene as S
     rng = ctx.rng
     FIELDS = S.FIELDS
@@ -204,6 +205,7 @@ def run(ctx):
                                 "excluded": {"%s.%s" % k: v[1] for k, v in MUTATORS.items() if not isinstance(v, str)},
                                 "mapping_entries_without_a_setter_in_the_source": ["%s.%s" % k for k in stale_map]}
 
+    ctx.log("mutator scan done")
     # ---- (T) probe: invalidation table + single-step staleness rows ------------------------------------
     base = S.default_config()
     base["p_models"] = (0, 1, 2, 3, 4)
@@ -247,6 +249,7 @@ def run(ctx):
         ctx.violation("c01-probe:" + str(pf["history"][1][1]), "after [observe; set %s; observe] the observation differs from a scene "
                       "built from scratch in the final configuration" % pf["history"][1][1], pf, found=True)
 
+    ctx.log("single-step probes done: %d rows" % len(probe_rows))
     # ---- (X) replace-then-mutate probes: [observe; set g; observe; set f; observe] where g replaces a subscriber
     # object (the replaced object is dropped and dies while still registered with the notifiers) -----------------
     REPLACERS = ["p_models", "b_models", "l_models", "b_attenuator", "l_profile", "l_spectrum", "p_edist", "p_atomic_data",
@@ -285,6 +288,7 @@ def run(ctx):
                       "after %s the observation differs from a scene built from scratch in the final configuration" % pf["history"], pf, found=True)
     ctx.coverage["replace_then_mutate_pairs"] = len(pairs)
 
+    ctx.log("replace-then-mutate probes done: %d pairs" % len(pairs))
     # ---- Gen/C01/Table.v and its tie lemma -------------------------------------------------------------
     def match_fn(name, rows, n):
         body = " | ".join("%d => %s" % (i, coq_nat_list(r)) for i, r in enumerate(rows))
@@ -381,6 +385,7 @@ def run(ctx):
             observe_and_compare()
         n_obs += len(verdicts)
         histories.append((model_ops, verdicts, ops))
+    ctx.log("histories done: %d, %d observations" % (n_hist, n_obs))
     ctx.obligation("executable property on the implementation: %d histories, %d observations compared with fresh scenes" % (n_hist, n_obs),
                    "search", not impl_fail, str(impl_fail[:2]))
     for pf in impl_fail[:3]:
